@@ -124,6 +124,179 @@ fn fast_check_prune_part(report: &mut Report, rng: &mut Rng, n: usize) {
   }
 }
 
+/// which known defects can be at work in a world (each identified by what triggers it)
+fn known_triggers(w: &World, k1: &BTreeMap<String, String>, k2: &BTreeMap<String, String>, full: &ModuleGraph) -> Vec<&'static str> {
+  let on_redirect_cycle = |k: &str| -> bool {
+    let Ok(mut cur) = ModuleSpecifier::parse(k) else { return false };
+    for _ in 0..40 {
+      match w.spec_index(&cur).map(|i| &w.resp[i]) {
+        Some(Resp::Redirect(t)) => cur = w.specs[*t].clone(),
+        _ => return false,
+      }
+    }
+    true
+  };
+  let has_item = |f: &dyn Fn(&Form) -> bool| {
+    w.resp.iter().any(|r| matches!(r, Resp::Module { items, .. } if items.iter().any(|it| f(&it.form))))
+  };
+  let mut triggers: Vec<&'static str> = vec![];
+  if !w.imports.is_empty() {
+    triggers.push("code-only-build-loads-configured-type-imports"); // F15
+  }
+  if has_item(&|f| matches!(f, Form::SourceMap)) {
+    triggers.push("source-map-entry-dropped-by-prune"); // F16
+  }
+  if w.opts.skip_dynamic_deps {
+    triggers.push("prune-keeps-target-of-skipped-dynamic-import"); // F17
+  }
+  // a redirect cycle, or a chain with more hops than the loader's limit: where the count runs out
+  // depends on where the build enters the chain
+  if (0..w.specs.len()).any(|i| on_redirect_cycle(w.specs[i].as_str())) || crate::world::redirect_budget_exceedable(w) {
+    triggers.push("too-many-redirects-entry-depends-on-entry-point"); // F18
+  }
+  let cls_err = |m: &BTreeMap<String, String>| {
+    m.values().any(|v| matches!(v.as_str(), "error:sourcePhase" | "error:unsupportedAttr" | "error:unsupportedMedia" | "error:invalidTypeAssertion"))
+  };
+  let asset_forms = has_item(&|f| match f {
+    Form::SourcePhase => true,
+    Form::With(a) | Form::DynamicWith(a) => matches!(a.as_str(), "text" | "bytes" | "css"),
+    _ => false,
+  });
+  // an entry's kind (module / asset stand-in / classification error) is decided by the request
+  // that reaches it first or last; type edges add such requests to the full build only
+  if asset_forms || cls_err(k1) || cls_err(k2) || cls_err(&obs(full).0) {
+    triggers.push("slot-classification-depends-on-first-edge"); // F6 / F14
+  }
+  triggers
+}
+
+/// what a lookup finds: the module's key, an error kind, or nothing
+fn found(g: &ModuleGraph, s: &ModuleSpecifier) -> String {
+  match g.try_get(s) {
+    Ok(Some(m)) => format!("module:{}", m.specifier()),
+    Ok(None) => "nothing".into(),
+    Err(e) => format!("error:{}", err_kind(e).0),
+  }
+}
+
+/// Graphs built on a redirect table filled in from a lockfile with stale entries (a specifier the
+/// loader serves directly — and may report as the final specifier of another request — is listed as
+/// a redirect source): pruning keeps the target of every code edge of a kept module, leaves no type
+/// side anywhere, and gives the code-only build of the same roots on the same lockfile.
+pub fn stale_lockfile_part(report: &mut Report, rng: &mut Rng, n: usize) {
+  for wi in 0..n {
+    let mut cfg = GenCfg::default();
+    cfg.chain = Some(1 + wi % 4);
+    let mut wr = rng.fork();
+    let mut w = gen_world(&mut wr, &cfg);
+    w.kind = GraphKind::All;
+    // in half of the worlds one redirect answer x -> t becomes "the module of t, final specifier t":
+    // a loader that follows redirects itself and reports where it ended up
+    if wi % 2 == 0 {
+      let cand = (0..w.resp.len()).find(|i| match &w.resp[*i] {
+        Resp::Redirect(t) => matches!(&w.resp[*t], Resp::Module { final_spec, .. } if *final_spec == *t),
+        _ => false,
+      });
+      if let Some(i) = cand {
+        if let Resp::Redirect(t) = w.resp[i].clone() {
+          w.resp[i] = w.resp[t].clone();
+        }
+      }
+    }
+    let seeds = crate::c14::stale_seeds(&w, &mut wr);
+    if seeds.is_empty() {
+      continue;
+    }
+    let build = |kind: GraphKind| -> Option<ModuleGraph> {
+      let mut wk = w.clone();
+      wk.kind = kind;
+      let mut graph = ModuleGraph::new(kind);
+      graph.fill_from_lockfile(deno_graph::FillFromLockfileOptions {
+        redirects: seeds.iter().map(|(a, b)| (a.as_str(), b.as_str())),
+        package_specifiers: std::iter::empty(),
+      });
+      let loader = ScriptedLoader::new(&wk);
+      let roots = wk.roots.iter().map(|r| wk.specs[*r].clone()).collect::<Vec<_>>();
+      crate::build::try_build(&wk, &loader, graph, roots).ok()
+    };
+    let (Some(full), Some(code)) = (build(GraphKind::All), build(GraphKind::CodeOnly)) else {
+      report.count("stale-lockfile:skipped-build-failure");
+      continue;
+    };
+    report.evaluations += 1;
+    let desc = json!({"source": "built-world-with-lockfile-redirects", "lockfile_redirects": seeds, "world": w.describe(), "world_index": wi});
+    let mut pruned = full.clone();
+    pruned.prune_types();
+    let entry_on_source = full.verif_slots().into_iter().any(|(k, _, _)| full.redirects.contains_key(k));
+    report.count(if entry_on_source { "stale-lockfile:entry-under-redirect-source" } else { "stale-lockfile:no-entry-under-redirect-source" });
+    // (a) no type side anywhere
+    for m in pruned.modules() {
+      for (t, d) in m.dependencies() {
+        if !d.maybe_type.is_none() || d.maybe_deno_types_specifier.is_some() {
+          report.fail("oracle", "pruned-keeps-type-resolution", format!("{} dependency {} still has a type side", m.specifier(), t), desc.clone());
+        }
+      }
+      if let Module::Js(js) = m {
+        if js.maybe_types_dependency.is_some() || js.fast_check.is_some() {
+          report.fail("oracle", "pruned-keeps-types-dependency", format!("{} keeps a types dependency / fast-check data", m.specifier()), desc.clone());
+        }
+      }
+    }
+    // (b) the target of every code edge of a kept module is still what it was
+    for m in pruned.modules() {
+      for (t, d) in m.dependencies() {
+        if let Some(target) = d.get_code() {
+          let (a, b) = (found(&full, target), found(&pruned, target));
+          if a != b {
+            report.fail("oracle", "pruned-drops-target-of-code-edge", format!("{} imports {:?}: the full graph has {} there, the pruned graph {}", m.specifier(), t, a, b), desc.clone());
+          }
+        }
+      }
+    }
+    // (c) equality with the code-only build on the same lockfile — where no entry sits under a
+    // redirect source: such an entry exists only because some request reached the loader's answer
+    // before the lockfile's redirect was consulted, and a type edge can be that request (then the
+    // code-only build never makes it; this is outside what the statement quantifies over)
+    if !same_attribute_proviso(&w) || entry_on_source {
+      continue;
+    }
+    let (k1, r1, e1) = obs(&pruned);
+    let (k2, r2, e2) = obs(&code);
+    let mut diffs = vec![];
+    for k in k1.keys().chain(k2.keys()).collect::<BTreeSet<_>>() {
+      if k1.get(k) != k2.get(k) {
+        diffs.push(format!("{}: pruned {:?} vs code-only {:?}", k, k1.get(k), k2.get(k)));
+      }
+    }
+    // the lockfile's own entries are outside the statement (a build keeps every entry it was given,
+    // used or not; pruning keeps those it reaches): redirects are compared without them
+    let without_seeds = |r: &BTreeMap<String, String>| -> BTreeMap<String, String> {
+      r.iter().filter(|(a, _)| !seeds.iter().any(|(s, _)| s == *a)).map(|(a, b)| (a.clone(), b.clone())).collect()
+    };
+    let (r1, r2) = (without_seeds(&r1), without_seeds(&r2));
+    if r1 != r2 {
+      diffs.push(format!("redirects (lockfile entries aside): pruned {:?} vs code-only {:?}", r1, r2));
+    }
+    for k in e1.keys() {
+      if let (Some(a), Some(b)) = (e1.get(k), e2.get(k)) {
+        if a != b {
+          diffs.push(format!("{} code edges: pruned {:?} vs code-only {:?}", k, a, b));
+        }
+      }
+    }
+    if diffs.is_empty() {
+      report.count("stale-lockfile:pruned-equals-code-only");
+      continue;
+    }
+    let triggers = known_triggers(&w, &k1, &k2, &full);
+    match triggers.len() {
+      0 => report.fail("oracle", "pruned-graph-differs-from-code-only-build", diffs.join("\n"), desc.clone()),
+      1 => report.fail("oracle", triggers[0], diffs.join("\n"), desc.clone()),
+      _ => report.count("info:differs-with-several-known-defect-triggers-present (not attributed)"),
+    }
+  }
+}
+
 pub fn run(tier: &str, seed: u64) -> Report {
   let mut report = Report::new("C17");
   report.rule = "generated worlds (as C01, same-type-attribute proviso enforced for the oracle) built with all dependency \
@@ -206,12 +379,9 @@ pub fn run(tier: &str, seed: u64) -> Report {
     if !pruned.imports.is_empty() {
       report.fail("oracle", "pruned-keeps-configured-imports", "imports not cleared".into(), desc.clone());
     }
-    // a module slot stored under a redirect source is never visited by prune_types (it follows the
-    // redirect first); only slots that are not redirect sources are held to the absence clauses
+    // (a module stored under a redirect source included: since the repair of F36 prune_types visits
+    // an entry before it looks at the redirect table)
     for m in pruned.modules() {
-      if pruned.redirects.contains_key(m.specifier()) {
-        continue;
-      }
       for (t, d) in m.dependencies() {
         if !d.maybe_type.is_none() || d.maybe_deno_types_specifier.is_some() {
           report.fail("oracle", "pruned-keeps-type-resolution", format!("{} dependency {} still has a type side", m.specifier(), t), desc.clone());
@@ -312,38 +482,7 @@ pub fn run(tier: &str, seed: u64) -> Report {
     }
     let _ = (classification_only, cycle_only, &only_code, &source_map_targets);
     if !diffs.is_empty() {
-      // which known defects can be at work in this world (each identified by what triggers it)
-      let has_item = |f: &dyn Fn(&Form) -> bool| {
-        w.resp.iter().any(|r| matches!(r, Resp::Module { items, .. } if items.iter().any(|it| f(&it.form))))
-      };
-      let mut triggers: Vec<&str> = vec![];
-      if !w.imports.is_empty() {
-        triggers.push("code-only-build-loads-configured-type-imports"); // F15
-      }
-      if has_item(&|f| matches!(f, Form::SourceMap)) {
-        triggers.push("source-map-entry-dropped-by-prune"); // F16
-      }
-      if w.opts.skip_dynamic_deps {
-        triggers.push("prune-keeps-target-of-skipped-dynamic-import"); // F17
-      }
-      // a redirect cycle, or a chain with more hops than the loader's limit: where the count runs out
-      // depends on where the build enters the chain
-      if (0..w.specs.len()).any(|i| on_redirect_cycle(w.specs[i].as_str())) || crate::world::redirect_budget_exceedable(&w) {
-        triggers.push("too-many-redirects-entry-depends-on-entry-point"); // F18
-      }
-      let cls_err = |m: &BTreeMap<String, String>| {
-        m.values().any(|v| matches!(v.as_str(), "error:sourcePhase" | "error:unsupportedAttr" | "error:unsupportedMedia" | "error:invalidTypeAssertion"))
-      };
-      let asset_forms = has_item(&|f| match f {
-        Form::SourcePhase => true,
-        Form::With(a) | Form::DynamicWith(a) => matches!(a.as_str(), "text" | "bytes" | "css"),
-        _ => false,
-      });
-      // an entry's kind (module / asset stand-in / classification error) is decided by the request
-      // that reaches it first or last; type edges add such requests to the full build only
-      if asset_forms || cls_err(&k1) || cls_err(&k2) || cls_err(&obs(&full).0) {
-        triggers.push("slot-classification-depends-on-first-edge"); // F6 / F14
-      }
+      let triggers = known_triggers(&w, &k1, &k2, &full);
       match triggers.len() {
         0 => report.fail("oracle", "pruned-graph-differs-from-code-only-build", diffs.join("\n"), desc.clone()),
         1 => report.fail("oracle", triggers[0], diffs.join("\n"), desc.clone()),
@@ -357,6 +496,7 @@ pub fn run(tier: &str, seed: u64) -> Report {
     report.count(&format!("entries-removed-by-prune:{}", (before - after.min(before)).min(6)));
   }
   fast_check_prune_part(&mut report, &mut rng, if tier == "thorough" { 1000 } else { 120 });
+  stale_lockfile_part(&mut report, &mut rng, if tier == "thorough" { 3000 } else { 400 });
   batch.finish(&mut report, "C17");
   report
 }
